@@ -182,3 +182,17 @@ def sdr_frame(s, d, r):
 def dc_tensor(s, d, r):
     n, u = sdr_frame(s, d, r)
     return np.outer(n, u) + np.outer(u, n)
+
+
+def has_horizontal_nodal_plane(v, tol=1e-12):
+    """one of the two nodal planes of the (deviatoric frame of the) tensor is exactly horizontal"""
+    w, L = np.linalg.eigh(mt33_of_mt6(np.asarray(v, dtype=float)))
+    t, p = L[:, 2], L[:, 0]
+    n1, n2 = (t + p) / math.sqrt(2), (t - p) / math.sqrt(2)
+    return max(abs(n1[2]), abs(n2[2])) > 1 - tol
+
+
+HORIZONTAL_KEY = 'fp_sdr_horizontal_plane'
+HORIZONTAL_WHAT = ('FP_SDR loses the slip direction of an exactly horizontal plane (dip 0, normal (0,0,-1)): rake = '
+                   'arctan2(-slip_z, slip_x n_y - slip_y n_x) is arctan2(0, 0) there, so the angles returned (and the Tape '
+                   'parameters with h = 1 built from them) do not describe the input source')
